@@ -656,14 +656,27 @@ fn pool_for(threads: usize) -> std::sync::Arc<rayon::ThreadPool> {
     m.entry(threads).or_insert_with(|| Arc::new(rayon::ThreadPoolBuilder::new().num_threads(threads).build().expect("pool"))).clone()
 }
 
-/// run `f` on its own thread; a run that does not come back within `secs` is a HANG
+/// how often a run needed the watchdog's grace period (machine stall, not a hang); reported as a note
+pub static WATCHDOG_GRACE_USED: std::sync::atomic::AtomicUsize = std::sync::atomic::AtomicUsize::new(0);
+
+/// run `f` on its own thread; a run that does not come back is a HANG. The runs guarded here either finish in
+/// milliseconds or never (a loop that cannot make progress), so after `secs` the SAME run is given a grace period of
+/// another `6 * secs`: a starved machine (other builds, other checks) delays a run, it does not make it spin for
+/// seven times the limit. Only a run that is still not back after `7 * secs` is reported as HANG.
 pub fn with_watchdog<T: Send + 'static>(secs: u64, f: impl FnOnce() -> T + Send + 'static) -> Option<Result<T, String>> {
     let (tx, rx) = mpsc::channel();
     std::thread::Builder::new().stack_size(16 << 20).spawn(move || {
         let r = crate::ctx::guarded(f);
         let _ = tx.send(r);
     }).expect("spawn");
-    rx.recv_timeout(Duration::from_secs(secs)).ok()
+    match rx.recv_timeout(Duration::from_secs(secs)) {
+        Ok(r) => Some(r),
+        Err(_) => {
+            let r = rx.recv_timeout(Duration::from_secs(secs * 6)).ok();
+            if r.is_some() { WATCHDOG_GRACE_USED.fetch_add(1, std::sync::atomic::Ordering::SeqCst); }
+            r
+        }
+    }
 }
 
 /// build the program on a fresh pipeline and collect it with the REAL engine
